@@ -25,6 +25,7 @@ mod c17;
 mod deltacases;
 mod c01;
 mod c18;
+mod c19;
 
 use common::*;
 
@@ -65,6 +66,7 @@ fn main() {
         "C01" => c01::run_c01(&ctx),
         "C16" => c01::run_c16(&ctx),
         "C18" => c18::run(&ctx),
+        "C19" => c19::run(&ctx),
         _ => machinery_error(format!("unknown property id {id}")),
     }
 }
